@@ -1,0 +1,64 @@
+//go:build verif
+
+package verifapi
+
+import (
+	"errors"
+
+	"github.com/tidwall/geojson"
+	"github.com/tidwall/geojson/geometry"
+)
+
+// Geo is a geometry built the way the server builds it from command
+// arguments (SET ... POINT / BOUNDS / OBJECT, and the search areas BOUNDS /
+// CIRCLE / OBJECT). It lets the C11 harness evaluate the geometry predicate of
+// WITHIN / INTERSECTS per candidate on the client side with the library the
+// server uses.
+type Geo struct{ o geojson.Object }
+
+// GeoPoint is what `SET key id POINT lat lon` stores.
+func GeoPoint(lat, lon float64) Geo {
+	return Geo{geojson.NewPoint(geometry.Point{X: lon, Y: lat})}
+}
+
+// GeoBounds is what `SET key id BOUNDS minlat minlon maxlat maxlon` stores
+// and what the search area `BOUNDS ...` is.
+func GeoBounds(minLat, minLon, maxLat, maxLon float64) Geo {
+	return Geo{geojson.NewRect(geometry.Rect{
+		Min: geometry.Point{X: minLon, Y: minLat},
+		Max: geometry.Point{X: maxLon, Y: maxLat},
+	})}
+}
+
+// GeoCircle is the search area `CIRCLE lat lon meters` (64 steps, as
+// defaultCircleSteps in internal/server/search.go).
+func GeoCircle(lat, lon, meters float64) Geo {
+	return Geo{geojson.NewCircle(geometry.Point{X: lon, Y: lat}, meters, 64)}
+}
+
+// GeoObject parses a GeoJSON document with the library defaults.
+func GeoObject(json string) (Geo, error) {
+	o, err := geojson.Parse(json, nil)
+	if err != nil {
+		return Geo{}, err
+	}
+	return Geo{o}, nil
+}
+
+// Rect returns the bounding rectangle (minLat, minLon, maxLat, maxLon).
+func (g Geo) Rect() (minLat, minLon, maxLat, maxLon float64) {
+	r := g.o.Rect()
+	return r.Min.Y, r.Min.X, r.Max.Y, r.Max.X
+}
+
+// Hit evaluates the predicate the collection iterators apply to a candidate:
+// cmd "within": g.Within(area); cmd "intersects": g.Intersects(area).
+func (g Geo) Hit(cmd string, area Geo) (bool, error) {
+	switch cmd {
+	case "within":
+		return g.o.Within(area.o), nil
+	case "intersects":
+		return g.o.Intersects(area.o), nil
+	}
+	return false, errors.New("unknown predicate " + cmd)
+}
